@@ -104,6 +104,34 @@ Theorem C09_hint_loader_stops : forall fid L L' hs extra ix,
 Proof. exact load_hints_extra. Qed.
 Print Assumptions C09_hint_loader_stops.
 
+(* Non-vacuity of 4 and 5: a script under sync=always with a merge pass is ready, its trace is
+   well-formed and runs on the power-tracking file system from a durable state to a durable state; and
+   a power image taken in the middle of the merge's copy phase — after the first copy reached the
+   merge data file and before its hint was written, with only 5 of the 27 bytes of that copy durable —
+   exists. *)
+Definition ex_c := mkCfg 60 true 0 1 0 1000000000.
+Definition ex_ops := [OSet [107] [1; 2]; OSet [108] [3]; ODel [107]; OSet [109] [4; 4; 4; 4; 4; 4; 4; 4; 4; 4; 4; 4; 4; 4; 4; 4; 4; 4; 4; 4; 4; 4; 4; 4; 4; 4; 4; 4; 4; 4]; OMerge [[108]; [109]]].
+Definition ex_st0 : pst := ((fun f => match f with FData 0 => Some [] | _ => None end), fun _ => 0%nat).
+
+Example C09_power_example :
+  c_sync ex_c = true /\ synced ex_st0 /\ rep (fst ex_st0) (s_dir init) /\
+  (exists st1, prun ex_st0 (snd (run ex_c init ex_ops)) = Some st1) /\
+  exists img, power_image_of ex_st0 (snd (run ex_c init ex_ops)) img /\
+              img (FData 2) = Some (firstn 5 (enc_entry (mkEntry 2 [108] (Some [3])))) /\ img (FHint 2) = Some [] /\ img (FData 0) <> None.
+Proof.
+  split; [reflexivity|]. split.
+  { intros f b H. cbn [fst snd ex_st0] in *. destruct f as [[|p]|i]; try discriminate. inversion H. reflexivity. }
+  split; [intros id; destruct id as [|p]; vm_compute; auto|]. split; [eexists; vm_compute; reflexivity|].
+  assert (Hb0 : bounded ex_st0).
+  { intros f b H. cbn [fst snd ex_st0] in *. destruct f as [[|p]|i]; try discriminate. inversion H. cbn. lia. }
+  destruct (prun ex_st0 (firstn 12 (snd (run ex_c init ex_ops)))) as [st|] eqn:E; [|vm_compute in E; discriminate].
+  pose proof (prun_bounded _ _ _ Hb0 E) as Hb.
+  eexists. split.
+  - apply (pimg _ _ _ (firstn 12 (snd (run ex_c init ex_ops))) (skipn 12 (snd (run ex_c init ex_ops))) st); [symmetry; apply firstn_skipn|exact E|].
+    apply (cut_one_is_image st (FData 2) 5 Hb). vm_compute in E. inversion E; subst st. cbn. lia.
+  - vm_compute in E. inversion E; subst st. cbn. split; [reflexivity|]. split; [reflexivity|discriminate].
+Qed.
+
 (* Non-vacuity / the merge ordering on a concrete run: every merge output is fsynced before the
    first unlink, and nothing is written after it. *)
 Example C09_merge_trace_example :
